@@ -127,6 +127,13 @@ reg('C04',
     'a system at rest without gravity, control or contact stays at rest in all three pipelines (spring/positional asserted on the stacks they implement, the rest matched against the known finding). Sampling, not proof.',
     'momentum computed from the state\'s own xd_i and mass; default vel_damping 0', 'DESIGN.md section 4 C04')
 
+reg('C05',
+    'property-based testing (Hypothesis model generator): metamorphic relations between two runs of the same code (rigid transform through one compiled function; permuted sibling order; merged vs separate components)',
+    'No counter-example among generated contact-free models x states x control sequences: transforming the whole scene by a random rigid transform commutes with 1-5 steps of all three '
+    'pipelines (link poses/velocities transformed, non-root joint coordinates unchanged; 1e-8, measured 1e-12), re-listing siblings only permutes per-link/per-dof results (1e-9), and '
+    'two merged models evolve exactly as each alone (1e-9). Sampling, not proof.',
+    'wide limits, no contacts, exact generalized inverse; diverging trajectories counted, not compared', 'DESIGN.md section 4 C05')
+
 PENDING = {}
 
 
